@@ -414,6 +414,8 @@ impl SessionManager {
     pub fn prepare_response(&mut self, requests: &RequestedItems, permitted: PermittedItems) {
         let prepared_response = DeviceSession::prepare_response(self, requests, permitted);
         self.state = State::Signing(prepared_response);
+        // A response with nothing to sign is already complete.
+        let _ = self.finalize_if_complete();
     }
 
     fn handle_decoded_request(&mut self, request: SessionData) -> RequestAuthenticationOutcome {
@@ -450,6 +452,8 @@ impl SessionManager {
             Ok(r) => r,
             Err(e) => {
                 self.state = State::Signing(e);
+                // An error response has nothing to sign: make it retrievable.
+                let _ = self.finalize_if_complete();
                 return RequestAuthenticationOutcome::default();
             }
         };
@@ -512,10 +516,17 @@ impl SessionManager {
     /// }
     /// ```
     pub fn submit_next_signature(&mut self, signature: Vec<u8>) -> anyhow::Result<()> {
+        if let State::Signing(p) = &mut self.state {
+            p.submit_next_signature(signature);
+        }
+        self.finalize_if_complete()
+    }
+
+    /// If the prepared response has no documents left to sign, encrypt it and make it ready.
+    fn finalize_if_complete(&mut self) -> anyhow::Result<()> {
         if matches!(self.state, State::Signing(_)) {
             match std::mem::take(&mut self.state) {
-                State::Signing(mut p) => {
-                    p.submit_next_signature(signature);
+                State::Signing(p) => {
                     if p.is_complete() {
                         let response = p.finalize_response();
                         let bytes = cbor::to_vec(&response)?;
